@@ -344,6 +344,12 @@ def r5_epoch_filters(ctx):
         if fn == "unlock_old":
             calls = q.call_exprs(b, "retain")
             r.check(len(calls) == 1 and sig(calls[0][1]) == whole, fn + "/retain", "stakes.retain(filter)", "unlock_old does %s" % [sig(c[1]) for c in calls])
+            # the filter is applied whenever unlock_old is called: a shortcut that returns without it (a cached "nothing can expire yet") keeps an expired stake — its
+            # coin stays locked, it stays in stakes_hash — for as long as the shortcut's bookkeeping is off by one
+            if calls:
+                wo = b.reachable(0, removed=[c_[0] for c_ in calls])
+                r.check(not any(x in wo for x in b.return_blocks()), fn + "/every-call", "every call of unlock_old applies the expiry filter",
+                        "unlock_old can return without applying the expiry filter (an early return / cached bound): an expired stake is then kept", b.where(calls[0][0]))
         else:
             s_ = sig(rr[0][2]) if rr else "?"
             caps = "epoch=$2" if fn == "total_votes" else "epoch=$2, key=$3"
